@@ -104,7 +104,7 @@ def gen_program(rng, length, mix):
                                                 ["colslice", rng.randint(0, 3), rng.choice(VALS[:10])],
                                                 ["region", rng.choice(VALS[:9])]])])
         elif o == "setattr":
-            prog.append(["setattr", s, rng.randint(0, 3), rng.choice([["slot", s2], ["lit", rand_vals(rng, n)]])])
+            prog.append(["setattr", s, rng.randint(0, 3), rng.choice([["slot", s2], ["lit", rand_vals(rng, n)], ["tup", rng.randint(0, 2)]])])
         elif o == "rename":
             prog.append(["rename", s, rng.choice(["a", "b", "z", "q"])])
     return prog
@@ -1048,6 +1048,13 @@ def _do_setattr(w, t, ci, src, changed_ok):
         spec = f"(CFrom {cnat(w.handle_of(o2))} None)"
         value = o2
         before = (tuple(o2.__dict__["_underlying"]), o2._name)
+    elif src[0] == "tup":
+        # a tuple the CALLER holds (over which it may also hold live vectors: newvec with `shared`): the table owns its
+        # columns, so the new column is a vector over storage of its own like any other
+        tup = w.tuples[src[1] % len(w.tuples)]
+        spec = f"(CLit {_vals(w, list(tup))} None)"
+        value = tup
+        o2 = None
     else:
         spec = f"(CLit {_vals(w, src[1])} None)"
         value = list(src[1])
